@@ -1,7 +1,7 @@
-(* C11 — closing a writer finalises the file exactly once, however close is reached (VbsWriter part;
-   the IpmWriter part composes this with the message encoder, see C06). *)
+(* C11 — closing a writer finalises the file exactly once, however close is reached (VbsWriter, and IpmWriter
+   = VbsWriter composed with the message encoder). *)
 From Coq Require Import List Arith NArith.
-Require Import CU.model.Prim CU.model.Block CU.model.Vbs CU.spec.FramingSpec CU.proofs.BlockProofs CU.proofs.VbsProofs CU.proofs.VbsTouch.
+Require Import CU.model.Prim CU.model.Types CU.model.Codec CU.model.Block CU.model.Vbs CU.model.Iso CU.model.Ipm CU.spec.FramingSpec CU.proofs.BlockProofs CU.proofs.VbsProofs CU.proofs.VbsTouch CU.proofs.IpmTouch.
 Import ListNotations.
 
 Section C11.
@@ -31,11 +31,21 @@ Theorem C11_touched_history : forall blocked rs fin0 ops,
   file_of (writer_run2 B blocked (map W2Op (map WWrite rs ++ [fin0]) ++ ops))
   = file_of (writer_run B blocked (map WWrite rs ++ [WClose])).
 Proof. exact (c11_touched_history B). Qed.
+
+(* IpmWriter: the messages ms have been written (w is the writer after write_many(ms), which succeeded); a first
+   finalisation and then any mix of close() / exits / position moves leaves the file of `with IpmWriter(...) as w:
+   w.write_many(ms)` — which, by C06_roundtrip, reads back as the messages *)
+Theorem C11_ipm_history : forall cfg cd blocked ms w fin0 ops,
+  iwrite_many B cfg cd (winit B fempty blocked) ms = Ok w ->
+  is_fin fin0 -> Forall later_op ops ->
+  ipm_file B cfg cd blocked ms = Ok (file_of (fold_left (wstep2 B) (W2Op fin0 :: ops) w)).
+Proof. exact (c11_ipm_history B). Qed.
 End C11.
 
 Print Assumptions C11_any_finalisation_history.
 Print Assumptions C11_reads_back.
 Print Assumptions C11_touched_history.
+Print Assumptions C11_ipm_history.
 
 Example C11_example :
   file_of (writer_run 3 false [WWrite [x01]; WClose; WExit; WClose]) = [x00; x00; x00; x01; x01; x00; x00; x00; x00].
